@@ -90,7 +90,18 @@ func runC21(c *Ctx) {
 							k := fmt.Sprintf("insert=%s:%s#%d", fnKey(fn), s.Map, nIns)
 							res := follow(followSpec{Fn: fn, From: in, Closes: func(x ssa.Instruction) bool {
 								ci, ok := x.(ssa.CallInstruction)
-								return ok && staticCallee(ci) == up && sameValue(ci.Common().Args[1], mu.Key)
+								if !ok {
+									return false
+								}
+								if staticCallee(ci) == up && sameValue(ci.Common().Args[1], mu.Key) {
+									return true
+								}
+								// the helper's body written out: the element is moved or pushed to the front directly
+								if f := staticCallee(ci); f != nil {
+									q := qualFn(f)
+									return q == "(*container/list.List).PushFront" || q == "(*container/list.List).MoveToFront"
+								}
+								return false
 							}})
 							c.verdictIf(res.OK, P, "sync", k, p.instrPos(in), "followed by updateAccessLog(key)", "an entry is inserted without being put at the front of the recency list: it can never be evicted and the capacity bound is lost")
 							// cap
